@@ -15,7 +15,7 @@ Open Scope N_scope.
    limit does not truncate; otherwise refused (error iff the client demanded). *)
 Theorem C02_decision : forall lim filt h ch s off ep reject meta,
   h_streams h ch = Some s -> wf_stream s -> off < U64 - 1 ->
-  snd (sub_stream lim filt h ch off ep reject meta) =
+  snd (sub_stream lim filt h ch off ep reject meta []) =
   if stream_cond s lim off ep
   then ROk true (visible_after filt s off) off (s_epoch s)
   else if reject then RErr ErrUnrecoverablePosition
@@ -25,7 +25,7 @@ Print Assumptions C02_decision.
 
 Theorem C02_exact : forall lim filt h ch s off ep reject meta,
   reachable h -> h_streams h ch = Some s -> off < U64 - 1 ->
-  let r := snd (sub_stream lim filt h ch off ep reject meta) in
+  let r := snd (sub_stream lim filt h ch off ep reject meta []) in
   is_recovered r = true ->
   r = ROk true (visible_after filt s off) off (s_epoch s) /\
   (ep = 0 \/ ep = s_epoch s) /\
@@ -37,7 +37,7 @@ Print Assumptions C02_exact.
 
 Theorem C02_refused : forall lim filt h ch s off ep reject meta,
   reachable h -> h_streams h ch = Some s -> off < U64 - 1 ->
-  let r := snd (sub_stream lim filt h ch off ep reject meta) in
+  let r := snd (sub_stream lim filt h ch off ep reject meta []) in
   is_recovered r = false ->
   r = if reject then RErr ErrUnrecoverablePosition else ROk false [] (s_top s) (s_epoch s).
 Proof. exact stream_refused. Qed.
@@ -48,7 +48,7 @@ Theorem C02_never_lies : forall lim filt h ch s off ep reject meta,
   (exists o, off < o /\ o <= s_top s /\ forall id, ~ In (mkItem o id) (s_items s)) \/
   (ep <> 0 /\ ep <> s_epoch s) \/
   ((0 < lim)%Z /\ (lim < Z.of_N (s_top s - off))%Z) ->
-  is_recovered (snd (sub_stream lim filt h ch off ep reject meta)) = false.
+  is_recovered (snd (sub_stream lim filt h ch off ep reject meta [])) = false.
 Proof. exact stream_never_lies. Qed.
 Print Assumptions C02_never_lies.
 
@@ -57,13 +57,22 @@ Theorem C02_recovers_when_possible : forall lim filt h ch s off ep reject meta,
   (ep = 0 \/ ep = s_epoch s) ->
   s_top s - N.of_nat (length (s_items s)) <= off -> off <= s_top s ->
   ((lim <= 0)%Z \/ (Z.of_N (s_top s - off) <= lim)%Z) ->
-  snd (sub_stream lim filt h ch off ep reject meta) =
+  snd (sub_stream lim filt h ch off ep reject meta []) =
   ROk true (visible_after filt s off) off (s_epoch s).
 Proof. exact stream_recovers_when_possible. Qed.
 Print Assumptions C02_recovers_when_possible.
 
-Theorem C02_oracle_sound : forall lim off ep reject fl full res,
-  stream_ok lim off ep reject fl full res = true <-> StreamProp lim off ep reject fl full res.
+(* For ANY broker state, request and ANY publications that land on the channel
+   between the subscribe's history read and its buffer merge: a reply that is
+   not "recovered" carries no publications. *)
+Theorem C02_refused_never_delivers : forall lim filt h ch off ep reject meta race,
+  let r := snd (sub_stream lim filt h ch off ep reject meta race) in
+  is_recovered r = false -> res_pubs r = [].
+Proof. exact stream_refused_never_delivers. Qed.
+Print Assumptions C02_refused_never_delivers.
+
+Theorem C02_oracle_sound : forall lim off ep reject fl extra full res,
+  stream_ok lim off ep reject fl extra full res = true <-> StreamProp lim off ep reject fl extra full res.
 Proof. exact stream_ok_sound. Qed.
 Print Assumptions C02_oracle_sound.
 
@@ -72,12 +81,12 @@ Definition p2 := mkPopts 2 60000 0 0 0 0 0.
 Definition h2 := fst (MemStream.run (hub_init 700 0) [Publish 0 1 p2; Publish 0 2 p2; Publish 0 3 p2]).
 Definition nofilt : N -> bool := fun _ => false.
 Example C02_examples :
-  snd (sub_stream 0 nofilt h2 0 1 1 false 0) = ROk true [mkItem 2 2; mkItem 3 3] 1 1 /\
-  snd (sub_stream 0 nofilt h2 0 0 1 false 0) = ROk false [] 3 1 /\             (* offset 1 trimmed *)
-  snd (sub_stream 0 nofilt h2 0 0 1 true 0) = RErr ErrUnrecoverablePosition /\
-  snd (sub_stream 1 nofilt h2 0 1 1 false 0) = ROk false [] 3 1 /\             (* limit truncates *)
-  snd (sub_stream 0 nofilt h2 0 1 9 false 0) = ROk false [] 3 1 /\             (* foreign epoch *)
-  snd (sub_stream 0 nofilt h2 0 3 0 false 0) = ROk true [] 3 1 /\              (* at the top *)
-  snd (sub_stream 0 nofilt h2 0 4 1 false 0) = ROk false [] 3 1 /\             (* future offset *)
-  snd (sub_stream 0 (fun id => id =? 3) h2 0 1 1 false 0) = ROk true [mkItem 2 2] 1 1.
+  snd (sub_stream 0 nofilt h2 0 1 1 false 0 []) = ROk true [mkItem 2 2; mkItem 3 3] 1 1 /\
+  snd (sub_stream 0 nofilt h2 0 0 1 false 0 []) = ROk false [] 3 1 /\             (* offset 1 trimmed *)
+  snd (sub_stream 0 nofilt h2 0 0 1 true 0 []) = RErr ErrUnrecoverablePosition /\
+  snd (sub_stream 1 nofilt h2 0 1 1 false 0 []) = ROk false [] 3 1 /\             (* limit truncates *)
+  snd (sub_stream 0 nofilt h2 0 1 9 false 0 []) = ROk false [] 3 1 /\             (* foreign epoch *)
+  snd (sub_stream 0 nofilt h2 0 3 0 false 0 []) = ROk true [] 3 1 /\              (* at the top *)
+  snd (sub_stream 0 nofilt h2 0 4 1 false 0 []) = ROk false [] 3 1 /\             (* future offset *)
+  snd (sub_stream 0 (fun id => id =? 3) h2 0 1 1 false 0 []) = ROk true [mkItem 2 2] 1 1.
 Proof. vm_compute. repeat split; reflexivity. Qed.
